@@ -89,6 +89,10 @@ fn one_case(ctx: &Ctx, case: u64, l: &mut Local) {
         2 => "with-blank-entries",
         _ => "unique",
     };
+    // unique queues sometimes hold salts whose TEXT is a JSON literal (12345, true, null, [1], 1e5):
+    // a salt is a string whatever it looks like
+    let literal_salts = queue_kind == "unique" && r.chance(15);
+    let mut used_literals: std::collections::HashSet<String> = Default::default();
     let pool: Vec<String> = (0..2)
         .map(|_| {
             let mut b = [0u8; 16];
@@ -103,6 +107,27 @@ fn one_case(ctx: &Ctx, case: u64, l: &mut Local) {
             "constant" => pool[0].clone(),
             "two-valued" => r.pick(&pool).clone(),
             "with-blank-entries" if r.chance(30) => (*r.pick(&["", " ", "  "])).to_string(),
+            _ if literal_salts && r.chance(50) && used_literals.len() < 40 => {
+                let n = used_literals.len() as u64;
+                let cand = match r.below(9) {
+                    0 => format!("{}", 12345 + n),
+                    1 => format!("-{}", 7 + n),
+                    2 => format!("{}e5", n + 1),
+                    3 => format!("[{n}]"),
+                    4 => "true".to_string(),
+                    5 => "null".to_string(),
+                    6 => "false".to_string(),
+                    7 => "{}".to_string(),
+                    _ => format!("{n}.5"),
+                };
+                if used_literals.insert(cand.clone()) {
+                    cand
+                } else {
+                    let c2 = format!("{}", 900_000 + n);
+                    used_literals.insert(c2.clone());
+                    c2
+                }
+            }
             _ => {
                 let mut b = [0u8; 16];
                 for x in b.iter_mut() {
@@ -113,6 +138,9 @@ fn one_case(ctx: &Ctx, case: u64, l: &mut Local) {
         })
         .collect();
     l.count(&format!("queue.{queue_kind}"));
+    if literal_salts {
+        l.count("queue.with-json-literal-salts");
+    }
     let input = || json!({"config": cfg.describe(), "claims": s.u, "strategy": s.strat.describe(), "salts": salts.len()});
     l.sample(case, input);
     l.evals += 1;
@@ -130,6 +158,7 @@ fn one_case(ctx: &Ctx, case: u64, l: &mut Local) {
     if queue_kind != "unique" {
         // identical disclosures (same salt, same name, same value) are possible here, so only the
         // clauses about the queue itself and reproducibility are asserted, on the raw strings
+        let last_text = std::cell::RefCell::new(String::new());
         let run_once = |l: &mut Local| -> Option<(crate::model::Parts, usize)> {
             fill_salts(&salts);
             let mut issuer = api::new_issuer(cfg.alg, 0, s.explicit_alg);
@@ -138,7 +167,10 @@ fn one_case(ctx: &Ctx, case: u64, l: &mut Local) {
             fill_salts(&[]);
             l.evals += 1;
             match out {
-                Outcome::Ok(text) => crate::model::Parts::parse(cfg.fmt, &text).ok().map(|p| (p, salts.len() - left)),
+                Outcome::Ok(text) => {
+                    *last_text.borrow_mut() = text.clone();
+                    crate::model::Parts::parse(cfg.fmt, &text).ok().map(|p| (p, salts.len() - left))
+                }
                 other => {
                     l.violate(Violation { subcheck: "issue".into(), class: format!("{queue_kind} salt queue"), observed: other.panic_signature().unwrap_or_else(|| other.describe()), case, detail: json!({"input": input(), "queue": queue_kind}) });
                     None
@@ -169,6 +201,31 @@ fn one_case(ctx: &Ctx, case: u64, l: &mut Local) {
         }
         if !parts.disclosures.is_empty() {
             l.count("salts.in-order");
+        }
+        // repeated salts are no reason to lose claims: as long as the disclosure STRINGS differ
+        // (their digests then differ too), holder and verifier recover the original claims
+        let distinct: std::collections::HashSet<&String> = parts.disclosures.iter().collect();
+        if distinct.len() == parts.disclosures.len() && !parts.disclosures.is_empty() {
+            let sel = gen::select_all(&s.u);
+            let jwk = cfg.holder.map(|(a, i)| keys::holder_jwk_json_canonical(a, i));
+            let exp = model::with_cnf(s.u.clone(), jwk.as_ref());
+            let text = last_text.borrow().clone();
+            let got = match api::holder_new(&text, cfg.fmt) {
+                Outcome::Ok(mut h) => match api::present(&mut h, &sel, None) {
+                    Outcome::Ok(p) => api::verify(&p, &Resolver::Fixed(cfg.alg, 0), None, cfg.fmt).out,
+                    o => o.map(|_| Value::Null),
+                },
+                o => o.map(|_| Value::Null),
+            };
+            l.evals += 1;
+            match got {
+                Outcome::Ok(v) if v == exp => l.count("roundtrip.repeated-salts.equal-to-model"),
+                Outcome::Ok(v) => {
+                    let (at, e, g, _) = model::first_diff(&exp, &v).unwrap_or_default();
+                    l.violate(Violation { subcheck: "value-changed-by-spacing".into(), class: format!("{queue_kind} salt queue"), observed: "verified claims differ from the original claims".into(), case, detail: json!({"input": input(), "at": at, "expected": e, "got": g}) });
+                }
+                o => l.violate(Violation { subcheck: "roundtrip-fails".into(), class: format!("{queue_kind} salt queue"), observed: o.panic_signature().unwrap_or_else(|| o.describe()), case, detail: json!({"input": input(), "queue": queue_kind, "history": api::history()}) }),
+            }
         }
         if !cfg.decoys {
             if let Some((p2, _)) = run_once(l) {
